@@ -6,8 +6,8 @@ ENGINE = {'name': 'pp',
  'case_type': 'c12case',
  'check': 'check',
  'imports': ['From L4.model Require Import GoBase ProxyProto.'],
- 'n_quick': 200,
- 'n_thorough': 2500,
+ 'n_quick': 120,
+ 'n_thorough': 900,
  'timeout': 900,
  'shard': 150,
  'serves': ['C12'],
@@ -21,7 +21,7 @@ ENGINE = {'name': 'pp',
          'foreign net.Addr types). allow list: 11 fixed + N/8 random lists over 19 CIDRs (IPv4, IPv6, IPv4-mapped, /0, duplicates, overlaps, '
          'non-canonical bases) x 23 peers (TCP, UDP, unix) through Provision/tidyRules/newConn. end to end: Handler.Handle over net.Pipe with '
          'chosen peer addresses; every base header with no list / a list containing the peer / a list not containing it, N random (header, '
-         'list, peer, payload 0..3000 bytes) combinations, 1/8 of them with a damaged header; every stream is run whole, header|payload, '
+         'list, peer, payload 0..3000 bytes; thorough tier: also 4096/5000/9000) combinations, 1/8 of them with a damaged header; every stream is run whole, header|payload, '
          'split at 3 random positions or (base headers, every 16th random one) at EVERY header position, byte by byte, and with 1/12/13/16/'
          'len-1/len/len+1/len+7/all bytes prefetched into the layer4 buffer; one correspondence case per distinct (config, stream); '
          'non-trivial = accepted parse, or non-empty allow list with a well-formed header; distinct = distinct Coq terms',
@@ -35,6 +35,5 @@ ENGINE = {'name': 'pp',
               'not modelled here: bufio/Connection.Wrap byte-stream layering (C01), header timeout deadlines, Caddyfile parsing (C15)'],
  'assumptions': ['v1 lines are ASCII: multi-byte Unicode blanks (U+0085, U+00A0, ...) that Sscanf also treats as spaces are not generated',
                  'sort.Slice returns a permutation of its input (order of equal keys unspecified): theorems hold for every such sort',
-                 'IPv6 text form: parse_encode_v1 and the v1 composition are proved for every renderer that satisfies parse_ip6 (render6 a) = Some a, '
-                 'is at most 39 bytes of non-blank non-newline characters containing a colon before any dot or percent sign; that net/netip\'s RFC 5952 form '
-                 '(render_ip6) satisfies it is established by correspondence (CSpecV1/CParse cases) and Examples, not by proof']}
+                 'unix socket names in v2 headers carry no trailing NUL byte (the receiver trims them) and are at most 108 bytes',
+                 'ports handed to the sender are below 65536 (real sockets); HeaderV2 truncates larger ones to 16 bits, HeaderV1 falls back to UNKNOWN (both modelled and checked by CWriteV1/CWriteV2)']}
